@@ -233,6 +233,47 @@ func (o *Obligation) print(asserts []*Term) (full, ground string) {
 	return
 }
 
+// Stage A: the query with its quantified assumptions instantiated at memory locations only
+// (frame conditions, well-formedness of stored slices) and then dropped. Most safety
+// obligations (nil, bounds, division) and many functional ones are decided here.
+func (o *Obligation) prepareA() {
+	base := o.baseAsserts()
+	o.ScriptA = smtHeader + Script(withAxioms(groundOnly(instantiateFactsMode(base, 300, 2))), nil, nil)
+}
+
+// Stage B: instances tied to the goal only, remaining quantified assumptions dropped.
+func (o *Obligation) prepareB() {
+	base := o.baseAsserts()
+	as := instantiateFactsMode(base, 500, 1)
+	o.ScriptB = smtHeader + Script(withAxioms(groundOnly(as)), nil, nil)
+	if o.ScriptB == o.ScriptA {
+		o.ScriptB = ""
+	}
+}
+
+// solveStage runs one of the cheap stages; only an unsat answer counts (the assumptions were weakened).
+func (o *Obligation) solveStage(stage string, tier string, idx int) bool {
+	script, label, tmo := o.ScriptA, "heap instances", 3
+	if stage == "B" {
+		script, label, tmo = o.ScriptB, "goal-directed instances", 4
+	}
+	if tier == "thorough" {
+		tmo *= 2
+	}
+	if script == "" {
+		return false
+	}
+	file := filepath.Join(workDir, fmt.Sprintf("q%05d_%s.smt2", idx, stage))
+	os.WriteFile(file, []byte(script), 0644)
+	r := runSolver("z3-new", file, tmo)
+	o.Ms += r.Ms
+	if r.Result == "unsat" {
+		o.Result, o.Solver, o.RawOut = "unsat", "z3-new ("+label+")", ""
+		return true
+	}
+	return false
+}
+
 // prepare builds the SMT scripts of the obligation: one query, or a case split over the
 // function's branch conditions when the merged-state query is large.
 func (o *Obligation) prepare(forceSplit int) {
@@ -367,31 +408,59 @@ func (o *Obligation) solve(tier string, idx int) {
 	}
 	if len(o.Scripts) > 0 {
 		scripts := o.Scripts
+		scriptsG := o.ScriptsG
 		o.Scripts = nil
-		var total int64
+		if o.Cover && len(scripts) > 3 {
+			scripts = scripts[:3] // reachability probes: a few cases are enough
+		}
+		// the cases are independent: solve up to 4 at a time
+		type caseRes struct {
+			k int
+			o *Obligation
+		}
+		results := make([]*Obligation, len(scripts))
+		sem := make(chan struct{}, 4)
+		done := make(chan caseRes, len(scripts))
 		for k, sc := range scripts {
-			if o.Cover && k >= 3 {
-				break // reachability probes: a few cases are enough
+			sub := *o
+			sub.Scripts, sub.ScriptsG = nil, nil
+			sub.Script = sc
+			sub.ScriptG = ""
+			if k < len(scriptsG) {
+				sub.ScriptG = scriptsG[k]
 			}
-			o.Script = sc
-			o.ScriptG = ""
-			if k < len(o.ScriptsG) {
-				o.ScriptG = o.ScriptsG[k]
-			}
-			o.Result = ""
-			o.solve(tier, idx*100+k)
-			total += o.Ms
+			sub.Result = ""
+			sub.Ms = 0
+			go func(k int, sub *Obligation) {
+				sem <- struct{}{}
+				sub.solve(tier, idx*100+k)
+				<-sem
+				done <- caseRes{k, sub}
+			}(k, &sub)
+		}
+		var total int64
+		for range scripts {
+			r := <-done
+			results[r.k] = r.o
+			total += r.o.Ms
+		}
+		// combine: first non-unsat case decides (cover: first reachable case)
+		pick := results[len(results)-1]
+		for _, r := range results {
 			if o.Cover {
-				if o.Result == "unsat-cover-ok" {
+				if r.Result == "unsat-cover-ok" {
+					pick = r
 					break
 				}
 				continue
 			}
-			if o.Result != "unsat" {
+			if r.Result != "unsat" {
+				pick = r
 				break
 			}
 		}
-		o.Ms = total
+		o.Result, o.Solver, o.RawOut, o.Model = pick.Result, pick.Solver, pick.RawOut, pick.Model
+		o.Ms += total
 		o.Solver += fmt.Sprintf(" (%d cases)", len(scripts))
 		return
 	}
@@ -408,7 +477,8 @@ func (o *Obligation) solve(tier string, idx int) {
 		os.WriteFile(file, []byte(o.ScriptG), 0644)
 		r := runSolver("z3-new", file, quick)
 		if r.Result == "unsat" {
-			o.Result, o.Solver, o.Ms, o.RawOut = "unsat", "z3-new (ground instances)", r.Ms, ""
+			o.Result, o.Solver, o.RawOut = "unsat", "z3-new (ground instances)", ""
+			o.Ms += r.Ms
 			return
 		}
 	}
@@ -455,7 +525,8 @@ func (o *Obligation) solve(tier string, idx int) {
 		}
 	}
 	cancel()
-	o.Result, o.Solver, o.Ms, o.RawOut = r.Result, r.Solver, total, r.Out
+	o.Result, o.Solver, o.RawOut = r.Result, r.Solver, r.Out
+	o.Ms += total
 	if o.Cover {
 		// reachability check: sat expected
 		if r.Result == "sat" {
